@@ -122,6 +122,15 @@ class Runner:
         # goes REAL bad during options parsing)
         self._asynchronous = False
         self._disowned = False
+        # Bookkeeping that makes timeout reporting independent of thread timing:
+        # whether the subprocess was seen to have ended, whether a kill was
+        # issued while it was still considered running, and whether the timer
+        # was disarmed because the subprocess had ended first.
+        self._process_done = False
+        self._kill_issued = False
+        self._kill_skipped = False
+        self._timer_cancelled_early = False
+        self._timeout_lock = threading.Lock()
 
     def run(self, command: str, **kwargs: Any) -> Optional["Result"]:
         """
@@ -438,6 +447,10 @@ class Runner:
                 **dict(self.result_kwargs, stdout="", stderr="", exited=0)
             )
         # Start executing the actual command (runs in background)
+        self._process_done = False
+        self._kill_issued = False
+        self._kill_skipped = False
+        self._timer_cancelled_early = False
         self.start(command, self.opts["shell"], self.env)
         # If disowned, we just stop here - no threads, no timer, no error
         # checking, nada.
@@ -478,6 +491,9 @@ class Runner:
         # Any exceptions that raised during self.wait() above will appear after
         # this block.
         finally:
+            # A subprocess that ended before its timeout elapsed must not be
+            # "timed out" (nor killed) by a timer firing during cleanup.
+            self._disarm_timer_if_timely()
             # Inform stdin-mirroring worker to stop its eternal looping
             self.program_finished.set()
             # Join threads, storing inner exceptions, & set a timeout if
@@ -513,7 +529,10 @@ class Runner:
             raise Failure(result, reason=watcher_errors[0])
         # If a timeout was requested and the subprocess did time out, shout.
         timeout = self.opts["timeout"]
-        if timeout is not None and self.timed_out:
+        if timeout is not None and (
+            self._kill_issued
+            or (self.timed_out and not self._timer_cancelled_early)
+        ):
             raise CommandTimedOut(result, timeout=timeout)
         if not (result or self.opts["warn"]):
             raise UnexpectedExit(result)
@@ -1015,6 +1034,9 @@ class Runner:
             proc_finished = self.process_is_finished
             dead_threads = self.has_dead_threads
             if proc_finished or dead_threads:
+                if proc_finished:
+                    with self._timeout_lock:
+                        self._process_done = True
                 break
             time.sleep(self.input_sleep)
 
@@ -1196,6 +1218,17 @@ class Runner:
         if self._timer:
             self._timer.cancel()
 
+    def _disarm_timer_if_timely(self) -> None:
+        if (
+            self._timer
+            and self.opts.get("timeout") is not None
+            and self._process_done
+            and not self._kill_issued
+            and (not self.timed_out or self._kill_skipped)
+        ):
+            self._timer.cancel()
+            self._timer_cancelled_early = True
+
     def kill(self) -> None:
         """
         Forcibly terminate the subprocess.
@@ -1361,6 +1394,14 @@ class Local(Runner):
             )
 
     def kill(self) -> None:
+        # Nothing to kill (and nothing must be killed) once the subprocess is
+        # known to have ended; otherwise note that the kill was issued, which
+        # is what makes the run a timed-out one.
+        with self._timeout_lock:
+            if self._process_done:
+                self._kill_skipped = True
+                return
+            self._kill_issued = True
         pid = self.pid if self.using_pty else self.process.pid
         try:
             os.kill(pid, signal.SIGKILL)
